@@ -414,6 +414,328 @@ def splitcall(src):
     return ast.unparse(t) + "\n"
 
 
-TRANSFORMS = {"splitcall": splitcall, "addlog": addlog, "msgchange": msgchange, "nodoc": nodoc, "annotate": annotate,
+def comp2loop(src):
+    """`x = [E for T in IT if C]` / `return [...]` at statement level becomes
+    `x = []; for T in IT: if C: x.append(E)` (single generator; the loop names
+    occur nowhere else in the function, so leaking them changes nothing)."""
+    t = ast.parse(src)
+    cnt = [0]
+
+    def fix_fn(fn):
+        allnames = {}
+        for n in ast.walk(fn):
+            if isinstance(n, ast.Name):
+                allnames[n.id] = allnames.get(n.id, 0) + 1
+            elif isinstance(n, ast.arg):
+                allnames[n.arg] = allnames.get(n.arg, 0) + 1
+
+        def block(stmts):
+            out = []
+            for st in stmts:
+                for f in ("body", "orelse", "finalbody"):
+                    sub = getattr(st, f, None)
+                    if isinstance(sub, list) and sub and isinstance(sub[0], ast.stmt) \
+                            and not isinstance(st, (ast.FunctionDef, ast.AsyncFunctionDef, ast.ClassDef)):
+                        setattr(st, f, block(sub))
+                for h in getattr(st, "handlers", []) or []:
+                    h.body = block(h.body)
+                v = st.value if isinstance(st, (ast.Assign, ast.Return)) else None
+                if isinstance(v, ast.ListComp) and len(v.generators) == 1 \
+                        and not v.generators[0].is_async \
+                        and (isinstance(st, ast.Return) or (len(st.targets) == 1
+                                                          and isinstance(st.targets[0], ast.Name))):
+                    g = v.generators[0]
+                    tn = [n.id for n in ast.walk(g.target) if isinstance(n, ast.Name)]
+                    inside = {}
+                    for n in ast.walk(v):
+                        if isinstance(n, ast.Name):
+                            inside[n.id] = inside.get(n.id, 0) + 1
+                    if any(allnames.get(x, 0) != inside.get(x, 0) for x in tn) \
+                            or any(isinstance(n, (ast.Lambda, ast.ListComp, ast.GeneratorExp,
+                                                  ast.SetComp, ast.DictComp))
+                                   for n in ast.walk(v) if n is not v):
+                        out.append(st)
+                        continue
+                    if isinstance(st, ast.Return):
+                        acc = "acc_%d" % cnt[0]
+                    else:
+                        acc = st.targets[0].id
+                        if acc in inside:
+                            out.append(st)
+                            continue
+                    cnt[0] += 1
+                    app = ast.Expr(ast.Call(ast.Attribute(ast.Name(acc, ast.Load()), "append", ast.Load()),
+                                            [v.elt], []))
+                    body = [app]
+                    for c in reversed(g.ifs):
+                        body = [ast.If(c, body, [])]
+                    out.append(ast.Assign([ast.Name(acc, ast.Store())], ast.List([], ast.Load())))
+                    out.append(ast.For(g.target, g.iter, body, []))
+                    if isinstance(st, ast.Return):
+                        out.append(ast.Return(ast.Name(acc, ast.Load())))
+                    continue
+                out.append(st)
+            return out
+        fn.body = block(fn.body)
+
+    for n in ast.walk(t):
+        if isinstance(n, (ast.FunctionDef, ast.AsyncFunctionDef)):
+            if not any(isinstance(m, (ast.FunctionDef, ast.AsyncFunctionDef, ast.Lambda))
+                       for m in ast.walk(n) if m is not n):
+                fix_fn(n)
+    ast.fix_missing_locations(t)
+    return ast.unparse(t) + "\n"
+
+
+def _always_exits(stmts):
+    if not stmts:
+        return False
+    last = stmts[-1]
+    if isinstance(last, (ast.Return, ast.Raise, ast.Continue, ast.Break)):
+        return True
+    if isinstance(last, ast.If) and last.orelse:
+        return _always_exits(last.body) and _always_exits(last.orelse)
+    return False
+
+
+def _blocks(t):
+    for n in ast.walk(t):
+        for f in ("body", "orelse", "finalbody"):
+            sub = getattr(n, f, None)
+            if isinstance(sub, list) and sub and isinstance(sub[0], ast.stmt):
+                yield n, f, sub
+        if isinstance(n, ast.ExceptHandler):
+            pass
+
+
+def tryelse(src):
+    """`try: A except E: <exits>` followed by B...  ->  `try: A except E: <exits>
+    else: B...` (no finally, no else yet, every handler leaves): B runs exactly when
+    A raised nothing, and is outside the handlers' reach either way."""
+    t = ast.parse(src)
+    for n, f, sub in list(_blocks(t)):
+        for i, st in enumerate(sub):
+            if isinstance(st, ast.Try) and not st.finalbody and not st.orelse and st.handlers \
+                    and all(_always_exits(h.body) for h in st.handlers) and i + 1 < len(sub):
+                st.orelse = sub[i + 1:]
+                del sub[i + 1:]
+                break
+    ast.fix_missing_locations(t)
+    return ast.unparse(t) + "\n"
+
+
+def elseout(src):
+    """the reverse: `else:` of a try whose handlers all leave is moved after it."""
+    t = ast.parse(src)
+    for n, f, sub in list(_blocks(t)):
+        i = 0
+        while i < len(sub):
+            st = sub[i]
+            if isinstance(st, ast.Try) and not st.finalbody and st.orelse and st.handlers \
+                    and all(_always_exits(h.body) for h in st.handlers):
+                sub[i + 1:i + 1] = st.orelse
+                st.orelse = []
+            i += 1
+    ast.fix_missing_locations(t)
+    return ast.unparse(t) + "\n"
+
+
+def guardclause(src):
+    """last statement of a loop body `if C: BODY` (no else, BODY of 2+ statements)
+    -> `if not C: continue` + BODY; same at the end of a function -> `return`."""
+    t = ast.parse(src)
+    for n in ast.walk(t):
+        if isinstance(n, (ast.For, ast.While)):
+            exit_ = ast.Continue
+        elif isinstance(n, (ast.FunctionDef, ast.AsyncFunctionDef)) and not any(
+                isinstance(x, (ast.Yield, ast.YieldFrom)) for x in ast.walk(n)):
+            exit_ = ast.Return
+        else:
+            continue
+        body = n.body
+        if body and isinstance(body[-1], ast.If) and not body[-1].orelse and len(body[-1].body) >= 2:
+            st = body[-1]
+            body[-1:] = [ast.If(ast.UnaryOp(ast.Not(), st.test), [exit_()], [])] + st.body
+    ast.fix_missing_locations(t)
+    return ast.unparse(t) + "\n"
+
+
+def ifexp2if(src):
+    """statement-level `x = A if C else B` / `return A if C else B` ->
+    `if C: x = A` `else: x = B`."""
+    t = ast.parse(src)
+
+    def fix(stmts):
+        out = []
+        for st in stmts:
+            for f in ("body", "orelse", "finalbody"):
+                sub = getattr(st, f, None)
+                if isinstance(sub, list) and sub and isinstance(sub[0], ast.stmt):
+                    setattr(st, f, fix(sub))
+            for h in getattr(st, "handlers", []) or []:
+                h.body = fix(h.body)
+            v = getattr(st, "value", None)
+            if isinstance(st, ast.Return) and isinstance(v, ast.IfExp):
+                out.append(ast.If(v.test, [ast.Return(v.body)], [ast.Return(v.orelse)]))
+            elif isinstance(st, ast.Assign) and isinstance(v, ast.IfExp) and len(st.targets) == 1 \
+                    and isinstance(st.targets[0], ast.Name):
+                import copy
+                out.append(ast.If(v.test, [ast.Assign([copy.deepcopy(st.targets[0])], v.body)],
+                                  [ast.Assign([copy.deepcopy(st.targets[0])], v.orelse)]))
+            else:
+                out.append(st)
+        return out
+    for n in ast.walk(t):
+        if isinstance(n, (ast.FunctionDef, ast.AsyncFunctionDef)):
+            n.body = fix(n.body)
+    ast.fix_missing_locations(t)
+    return ast.unparse(t) + "\n"
+
+
+def if2ifexp(src):
+    """`if C: x = A` `else: x = B` (single plain assignments to the same name, or
+    two returns of values) -> `x = A if C else B` / `return A if C else B`."""
+    t = ast.parse(src)
+
+    def fix(stmts):
+        out = []
+        for st in stmts:
+            for f in ("body", "orelse", "finalbody"):
+                sub = getattr(st, f, None)
+                if isinstance(sub, list) and sub and isinstance(sub[0], ast.stmt):
+                    setattr(st, f, fix(sub))
+            for h in getattr(st, "handlers", []) or []:
+                h.body = fix(h.body)
+            if isinstance(st, ast.If) and len(st.body) == 1 and len(st.orelse) == 1:
+                a, b = st.body[0], st.orelse[0]
+                if isinstance(a, ast.Return) and isinstance(b, ast.Return) \
+                        and a.value is not None and b.value is not None:
+                    out.append(ast.Return(ast.IfExp(st.test, a.value, b.value)))
+                    continue
+                if isinstance(a, ast.Assign) and isinstance(b, ast.Assign) \
+                        and len(a.targets) == 1 and len(b.targets) == 1 \
+                        and isinstance(a.targets[0], ast.Name) and isinstance(b.targets[0], ast.Name) \
+                        and a.targets[0].id == b.targets[0].id:
+                    out.append(ast.Assign([a.targets[0]], ast.IfExp(st.test, a.value, b.value)))
+                    continue
+            out.append(st)
+        return out
+    for n in ast.walk(t):
+        if isinstance(n, (ast.FunctionDef, ast.AsyncFunctionDef)):
+            n.body = fix(n.body)
+    ast.fix_missing_locations(t)
+    return ast.unparse(t) + "\n"
+
+
+class _AndSplit(ast.NodeTransformer):
+    """`if a and b: X` (no else) -> `if a: if b: X`."""
+
+    def visit_If(self, n):
+        self.generic_visit(n)
+        if not n.orelse and isinstance(n.test, ast.BoolOp) and isinstance(n.test.op, ast.And):
+            inner = n.body
+            for v in reversed(n.test.values):
+                inner = [ast.If(v, inner, [])]
+            return inner[0]
+        return n
+
+
+def andsplit(src):
+    t = ast.parse(src)
+    _AndSplit().visit(t)
+    ast.fix_missing_locations(t)
+    return ast.unparse(t) + "\n"
+
+
+class _OrSplit(ast.NodeTransformer):
+    """`if a or b: <single return/raise/continue/break>` (no else) ->
+    `if a: S` `if b: S`."""
+
+    def _fix(self, stmts):
+        out = []
+        for st in stmts:
+            if isinstance(st, ast.If) and not st.orelse and isinstance(st.test, ast.BoolOp) \
+                    and isinstance(st.test.op, ast.Or) and len(st.body) == 1 \
+                    and isinstance(st.body[0], (ast.Return, ast.Raise, ast.Continue, ast.Break)):
+                import copy
+                for v in st.test.values:
+                    out.append(ast.If(v, [copy.deepcopy(st.body[0])], []))
+            else:
+                out.append(st)
+        return out
+
+    def generic_visit(self, n):
+        super().generic_visit(n)
+        for f in ("body", "orelse", "finalbody"):
+            sub = getattr(n, f, None)
+            if isinstance(sub, list) and sub and isinstance(sub[0], ast.stmt):
+                setattr(n, f, self._fix(sub))
+        return n
+
+
+def orsplit(src):
+    t = ast.parse(src)
+    _OrSplit().visit(t)
+    ast.fix_missing_locations(t)
+    return ast.unparse(t) + "\n"
+
+
+class _WithFlip(ast.NodeTransformer):
+    """`with a, b: X` -> `with a: with b: X`; `with a: with b: X` (nothing else in
+    the outer body) -> `with a, b: X`."""
+
+    def visit_With(self, n):
+        self.generic_visit(n)
+        if len(n.items) > 1:
+            inner = n.body
+            for it in reversed(n.items):
+                inner = [ast.With([it], inner)]
+            return inner[0]
+        if len(n.body) == 1 and isinstance(n.body[0], ast.With):
+            return ast.With(n.items + n.body[0].items, n.body[0].body)
+        return n
+
+
+def withflip(src):
+    t = ast.parse(src)
+    _WithFlip().visit(t)
+    ast.fix_missing_locations(t)
+    return ast.unparse(t) + "\n"
+
+
+class _FstrPct(ast.NodeTransformer):
+    """f"{a}/{b}/stat" -> "%s/%s/stat" % (a, b): for conversion-less,
+    spec-less placeholders str.__mod__ with %s formats exactly like an f-string.
+    Only path-like strings (a "/" among the constant parts) are rewritten."""
+
+    def visit_JoinedStr(self, n):
+        self.generic_visit(n)
+        fmt, ops = "", []
+        for v in n.values:
+            if isinstance(v, ast.Constant) and isinstance(v.value, str):
+                if "%" in v.value:
+                    return n
+                fmt += v.value
+            elif isinstance(v, ast.FormattedValue) and v.conversion == -1 \
+                    and v.format_spec is None and not isinstance(v.value, ast.JoinedStr) \
+                    and not isinstance(v.value, (ast.Tuple, ast.Dict)):
+                fmt += "%s"
+                ops.append(v.value)
+            else:
+                return n
+        if "/" not in fmt or not ops or " " in fmt:
+            return n
+        return ast.BinOp(left=ast.Constant(fmt), op=ast.Mod(),
+                         right=ast.Tuple(elts=ops, ctx=ast.Load()))
+
+
+def fstr2pct(src):
+    t = ast.parse(src)
+    _FstrPct().visit(t)
+    ast.fix_missing_locations(t)
+    return ast.unparse(t) + "\n"
+
+
+TRANSFORMS = {"tryelse": tryelse, "elseout": elseout, "guardclause": guardclause, "ifexp2if": ifexp2if, "if2ifexp": if2ifexp, "andsplit": andsplit, "orsplit": orsplit, "withflip": withflip, "fstr2pct": fstr2pct, "comp2loop": comp2loop, "splitcall": splitcall, "addlog": addlog, "msgchange": msgchange, "nodoc": nodoc, "annotate": annotate,
               "noelse": noelse, "notcmp": notcmp, "alpha": alpha, "reprint": reprint, "rettemp": rettemp, "ifswap": ifswap,
               "cmpflip": cmpflip}
